@@ -43,6 +43,22 @@ def followup(stage, lines, model, checked, release, tier, rng):
         L.append("%s::SecretKey::roundtrip %s" % (a, K.hx(R(p.sk))))
         L.append("%s::PublicKey::roundtrip %s" % (a, K.hx(R(p.pk))))
         L.append("%s::Keypair::roundtrip %s" % (a, K.hx(R(p.sk + p.pk))))
+        # keys are binary: bytes that mean something in text (line feed, carriage return, blank, tab, NUL, quote, DEL, 0xFF,
+        # '=' padding) at the end, at the start and at the sk/pk seam - on strings of the right length (must round-trip) and
+        # of lengths N+1, N+2, N-1 (must be refused, whatever the extra bytes are)
+        for (ty, n) in (("SecretKey", p.sk), ("PublicKey", p.pk), ("Keypair", p.sk + p.pk)):
+            for sp in (0x0A, 0x0D, 0x20, 0x09, 0x00, 0x22, 0x3D, 0x7F, 0xFF):
+                base = bytearray(R(n))
+                e = bytearray(base); e[-1] = sp; L.append("%s::%s::roundtrip %s" % (a, ty, K.hx(bytes(e))))
+                e = bytearray(base); e[0] = sp; L.append("%s::%s::roundtrip %s" % (a, ty, K.hx(bytes(e))))
+                if ty == "Keypair":
+                    e = bytearray(base); e[p.sk - 1] = sp; e[p.sk] = sp; L.append("%s::%s::roundtrip %s" % (a, ty, K.hx(bytes(e))))
+                L.append("%s::%s::roundtrip %s" % (a, ty, K.hx(bytes(base) + bytes([sp]))))
+                L.append("%s::%s::roundtrip %s" % (a, ty, K.hx(bytes([sp]) + bytes(base))))
+                L.append("%s::%s::roundtrip %s" % (a, ty, K.hx(bytes(base[:-1]))[:-2] + "%02x" % sp))
+            L.append("%s::%s::roundtrip %s" % (a, ty, K.hx(bytes(base) + b"\r\n")))
+            L.append("%s::%s::roundtrip %s" % (a, ty, K.hx(bytes([0x0A]) * n)))
+            L.append("%s::%s::roundtrip %s" % (a, ty, K.hx(bytes([0x0A]) * (n + 1))))
         # every length from 0 to N + 64 (harness-side loop): the only accepted length must be N
         for (ty, n) in (("SecretKey", p.sk), ("PublicKey", p.pk), ("Keypair", p.sk + p.pk)):
             L.append("@impl %s::%s::accepted_lengths %d" % (a, ty, n + 64))
